@@ -10,7 +10,8 @@ PROPS = "props/C03.v"
 SPEC_NAMES = set("""length keys add reverse type flatten min max sort unique transpose explode implode
 ascii_downcase ascii_upcase utf8bytelength tonumber abs has contains inside indices index rindex startswith
 endswith ltrimstr rtrimstr trimstr getpath split _add _subtract _multiply _divide _modulo _equal _notequal
-_less _greater _lesseq _greatereq _alternative _index _slice _min_by _max_by _sort_by _group_by _unique_by _plus _negate toboolean isnan isinfinite isfinite isnormal ltrim rtrim trim floor ceil trunc round rint nearbyint fabs sqrt""".split())
+_less _greater _lesseq _greatereq _alternative _index _slice _min_by _max_by _sort_by _group_by _unique_by _plus _negate toboolean isnan isinfinite isfinite isnormal ltrim rtrim trim floor ceil trunc round rint nearbyint fabs sqrt
+infinite nan bsearch _tohtml _touri _tourid _tobase64 _tobase64d fmax fmin error halt halt_error""".split())
 
 # machine-readable status of every native / operator (name/arity): how "model = documented function" is
 # established.  proved: theorem in coq/props/C03.v on all well-formed inputs; proved-partial: theorem on a
@@ -26,11 +27,13 @@ def _status():
         _greatereq/2 _alternative/2 keys/0 has/1 reverse/0 type/0 explode/0 utf8bytelength/0 startswith/1 endswith/1
         ltrimstr/1 rtrimstr/1 trimstr/1 min/0 max/0 _min_by/1 _max_by/1 add/0 tonumber/0 transpose/0 contains/1 inside/1
         indices/1 index/1 rindex/1 error/0 error/1 halt/0 halt_error/0 halt_error/1 toboolean/0 _plus/0 isnan/0 isinfinite/0
-        isfinite/0 isnormal/0 floor/0 round/0 nearbyint/0 rint/0 ceil/0 trunc/0 fabs/0 sqrt/0 fmax/2 fmin/2""")
-    put("proved-partial", """length/0 abs/0 ascii_downcase/0 ascii_upcase/0 split/1 implode/0 flatten/0 flatten/1 getpath/1 _index/2
-        setpath/2 _range/3 join/1 sort/0 _sort_by/1 unique/0 _unique_by/1 _group_by/1 _tocsv/0 _totsv/0 _tosh/0 tostring/0
-        format/1 tojson/0 _negate/0 ltrim/0 rtrim/0 trim/0 _slice/3""")
-    put("model-only", """fromjson/0 _tohtml/0 _touri/0 _tourid/0 _tobase64/0 _tobase64d/0 delpaths/1 bsearch/1 infinite/0 nan/0""")
+        isfinite/0 isnormal/0 floor/0 round/0 nearbyint/0 rint/0 ceil/0 trunc/0 fabs/0 sqrt/0 fmax/2 fmin/2
+        infinite/0 nan/0 bsearch/1 _tohtml/0 _touri/0 _tourid/0 _tobase64/0 _tobase64d/0
+        ascii_downcase/0 ascii_upcase/0 implode/0 length/0 abs/0 _negate/0 _slice/3 _index/2 _range/3 flatten/0 getpath/1""")
+    put("proved-partial", """split/1 flatten/1
+        setpath/2 join/1 sort/0 _sort_by/1 unique/0 _unique_by/1 _group_by/1 _tocsv/0 _totsv/0 _tosh/0 tostring/0
+        format/1 tojson/0 ltrim/0 rtrim/0 trim/0""")
+    put("model-only", """fromjson/0 delpaths/1""")
     # proved-oracle: dispatch and argument conversion proved (C03_natives_meet_doc5); the function value is libm (class only)
     put("proved-oracle", """sin/0 cos/0 tan/0 asin/0 acos/0 atan/0 sinh/0 cosh/0 tanh/0 asinh/0 acosh/0 atanh/0 significand/0 cbrt/0 exp/0
         exp10/0 exp2/0 expm1/0 log/0 log10/0 log1p/0 log2/0 logb/0 gamma/0 tgamma/0 lgamma/0 erf/0 erfc/0 j0/0 j1/0 y0/0 y1/0
